@@ -582,7 +582,7 @@ func (e *SpecEnv) evalIndex(n *SIndex) SVal {
 		i := e.evalInt(n.I)
 		if src, ok := vc.bseqSrc[v.T]; ok {
 			// the Bytes value abstracts a known array segment: read the array directly when in range
-			return SVal{fmt.Sprintf("(ite (and (<= 0 %s) (< %s %s)) %s (Bytes_at %s %s))", i, i, src[2], sel(src[0], addT(src[1], i)), v.T, i), stInt}
+			return SVal{fmt.Sprintf("(ite (and (<= 0 %s) (< %s %s)) %s (Bytes_at %s %s))", i, i, src[2], sel(src[0], sidxT(src[1], i)), v.T, i), stInt}
 		}
 		return SVal{fmt.Sprintf("(Bytes_at %s %s)", v.T, i), stInt}
 	}
@@ -593,7 +593,7 @@ func (e *SpecEnv) evalIndex(n *SIndex) SVal {
 		}
 		i := e.evalInt(n.I)
 		h := vc.heapVar(vc.sorts.elemHeap(u.Elem()))
-		return SVal{sel(sel(vc.get(e.st, h), sref(v.T)), addT(soff(v.T), i)), e.goST(u.Elem())}
+		return SVal{sel(sel(vc.get(e.st, h), sref(v.T)), sidxT(soff(v.T), i)), e.goST(u.Elem())}
 	case *types.Array:
 		return SVal{sel(v.T, e.evalInt(n.I)), e.goST(u.Elem())}
 	case *types.Basic:
